@@ -1,9 +1,32 @@
 (* C05 / C16: `dud status` tells the truth (Model/Cache.v [status_node], [status_file],
    [status_short]) and the Merkle checksum is injective on tracked content.
-   Statements are the Props of Proofs/CacheDefs.v. *)
+   Statements are the Props of Proofs/CacheDefs.v.
+
+   Proved exactly as stated in CacheDefs:
+     status_skip          : stmt_status_skip H
+     short_agrees         : stmt_short_agrees H
+     merkle_inj           : stmt_merkle_inj H          (merkle_inj_nocodec: without [codec_ok])
+     status_after_commit  : stmt_status_after_commit H (uses neither [codec_ok], [man_plain] nor
+                                                         [man_closed]; see codec_ok_holds)
+   [stmt_status_iff H] is FALSE as stated, in two ways (module Cex, refuted with toy hashes):
+     Cex.status_iff_needs_H_has      : ~ stmt_status_iff (fun b => b)
+        a manifest child whose recorded checksum has < 3 characters but is a cache key;
+     Cex.status_iff_needs_norec_flat : ~ stmt_status_iff Ht   (Ht injective, >= 3 characters)
+        disable-recursion switched on after a recursive commit: the recorded manifest lists a
+        sub-directory, status checks it and says "up to date", [tracked_view] drops it.
+   Proved instead:
+     status_sound      (ContentsMatch = true -> committed tree = workspace)   needs [norec_flat]
+     status_complete   (committed tree = workspace -> ContentsMatch = true)   needs [keys_ok]
+     status_iff_strong : the iff under [keys_ok c] and [norec_flat a c]
+     status_iff_fixed  : the statement of CacheDefs + [H_has] + [norec_flat a c]
+     status_iff_recursive : the statement of CacheDefs + [H_has] for [a_norec a = false]
+     status_file_iff   : the file level
+   ([H_inj] is not used by status_sound / status_complete / status_iff_*: [cache_ok] already
+   ties an object's bytes to its digest; status_after_commit does use it.)  Non-vacuity examples at the end of module Cex. *)
 From Coq Require Import PeanoNat NArith List Bool Sorted Lia.
 From Coq Require String.
 From DudV Require Import Base.Bytes Base.JsonStr Base.Json Model.Fs Model.Cache Proofs.CacheDefs.
+From DudV Require Proofs.ManifestRT.   (* not imported: its boolean [wf_manifest] and order lemmas keep their qualified names *)
 Import ListNotations.
 Local Open Scope N_scope.
 
@@ -263,6 +286,43 @@ Proof.
   intros Hc Hb d' o m Hg Hm. rewrite cget_cput in Hg. destruct (beqb d' d).
   - injection Hg as <-. exact (Hb m Hm).
   - exact (Hc d' o m Hg Hm).
+Qed.
+
+(* ================= the manifest codec round trip, from Proofs/ManifestRT ================= *)
+Lemma wf_text_okb s : wf_text s -> ManifestRT.okb s = true.
+Proof.
+  intros [Hv Hb]. unfold ManifestRT.okb. rewrite Hv. cbn [andb]. unfold wf_bytes.
+  apply forallb_forall. intros b Hin. unfold bytes_ok in Hb. rewrite Forall_forall in Hb.
+  unfold is_byte. apply N.ltb_lt. exact (Hb b Hin).
+Qed.
+
+Lemma ksorted_ssorted {A} (l : list (bytes * A)) : ksorted l -> ManifestRT.ssorted l = true.
+Proof.
+  induction l as [|x l IH]; intros Hs; [reflexivity|]. apply ksorted_inv in Hs as [Hs Hf].
+  cbn [ManifestRT.ssorted]. rewrite (IH Hs), andb_true_r. unfold ManifestRT.keys_gt.
+  apply forallb_forall. exact Hf.
+Qed.
+
+(* like [wf_manifest] of CacheDefs, without any condition on the flags of the entries *)
+Definition wf_manifest_flags (m : manifest) : Prop :=
+  wf_text (m_path m) /\ ksorted (m_contents m) /\
+  Forall (fun kv => a_path (snd kv) = fst kv /\ valid_entry_name (fst kv) = true /\
+                    wf_text (fst kv) /\ wf_text (a_cs (snd kv))) (m_contents m).
+
+Lemma codec_flags m : wf_manifest_flags m -> dec_manifest (enc_manifest m) = Some m.
+Proof.
+  intros (Hp & Hs & He). apply ManifestRT.dec_enc_manifest. unfold ManifestRT.wf_manifest.
+  rewrite (wf_text_okb _ Hp), (ksorted_ssorted _ Hs). cbn [andb].
+  unfold ManifestRT.wf_entries. apply forallb_forall. intros kv Hin. rewrite Forall_forall in He.
+  destruct (He kv Hin) as (H1 & H2 & H3 & H4). unfold ManifestRT.wf_entry.
+  rewrite H1, beqb_refl, H2, (wf_text_okb _ H3), (wf_text_okb _ H4). reflexivity.
+Qed.
+
+(* the premise [codec_ok] of the statements of CacheDefs is a theorem *)
+Theorem codec_ok_holds : codec_ok.
+Proof.
+  intros m (Hp & Hs & He). apply codec_flags. split; [exact Hp|]. split; [exact Hs|].
+  eapply Forall_impl; [|exact He]. intros kv (H1 & H2 & H3 & H4 & _). repeat split; assumption || apply H3 || apply H4.
 Qed.
 
 Section Status.
@@ -960,7 +1020,7 @@ Section Status.
     | O => False
     | S f' =>
       if a_isdir a then match n with Dir es => utd_dir (utd f' c) c a es | _ => False end
-      else a_skip a = false /\ st_cm (status_file H a (Some n) c) = true
+      else st_cm (status_file H a (Some n) c) = true
     end.
 
   Definition all_cm_list (l : list (bytes * stree)) : Prop :=
@@ -1005,16 +1065,16 @@ Section Status.
       rewrite (status_node_dir f a es c Hd). cbv zeta. unfold in_cache.
       rewrite Hhas, Ho, Hm, Hl. cbn [andb]. rewrite Hun. eexists. split; [reflexivity|].
       apply all_cm_St. split; [reflexivity|exact Hal].
-    - destruct Hu as [_ Hcm]. rewrite (status_node_file f a _ c Hd). eexists. split; [reflexivity|].
+    - rewrite (status_node_file f a _ c Hd). eexists. split; [reflexivity|].
       destruct (status_file_shape a (Some n) c) as (w & h & i & cm & Hsh). rewrite Hsh in *.
-      apply all_cm_St. split; [exact Hcm|exact I].
+      apply all_cm_St. split; [exact Hu|exact I].
   Qed.
 
   Lemma utd_S : forall f c a n, utd f c a n -> utd (S f) c a n.
   Proof.
     induction f as [|f IH]; intros c a n Hu; [destruct Hu|].
     change (if a_isdir a then match n with Dir es => utd_dir (utd (S f) c) c a es | _ => False end
-            else a_skip a = false /\ st_cm (status_file H a (Some n) c) = true).
+            else st_cm (status_file H a (Some n) c) = true).
     cbn [utd] in Hu. destruct (a_isdir a); [|exact Hu].
     destruct n as [| | |es|]; try exact Hu.
     destruct Hu as (o & m & Hhas & Ho & Hm & Hkids & Hun). exists o, m. repeat split; try assumption.
@@ -1025,14 +1085,25 @@ Section Status.
   Lemma utd_mono f f' c a n : (f <= f')%nat -> utd f c a n -> utd f' c a n.
   Proof. intros Hle Hu. induction Hle as [|f' _ IH]; [exact Hu|]. apply utd_S. exact IH. Qed.
 
+  Lemma status_file_skip_file a b c : a_skip a = true ->
+    st_cm (status_file H a (Some (File b)) c) = has_cs (a_cs a) && beqb (H b) (a_cs a).
+  Proof.
+    intros Hskip. unfold status_file, quick, qmatch. rewrite Hskip.
+    destruct (has_cs (a_cs a)); reflexivity.
+  Qed.
+
+  (* a positive answer for a file artifact survives the growth of the cache *)
   Lemma status_file_le c c' a n :
-    cache_le c c' -> a_skip a = false ->
+    cache_le c c' ->
     st_cm (status_file H a (Some n) c) = true -> st_cm (status_file H a (Some n) c') = true.
   Proof.
-    intros Hle Hskip Hcm. destruct n as [b|d|t|es|].
-    - rewrite (status_file_file a b c Hskip) in Hcm. rewrite (status_file_file a b c' Hskip).
-      destruct (cget c (a_cs a)) as [o|] eqn:Ho; [|discriminate Hcm].
-      destruct (Hle _ _ Ho) as (o' & Ho' & Hd). rewrite Ho', Hd. exact Hcm.
+    intros Hle Hcm. destruct n as [b|d|t|es|].
+    - destruct (a_skip a) eqn:Hskip.
+      + rewrite (status_file_skip_file a b c Hskip) in Hcm. rewrite (status_file_skip_file a b c' Hskip).
+        exact Hcm.
+      + rewrite (status_file_file a b c Hskip) in Hcm. rewrite (status_file_file a b c' Hskip).
+        destruct (cget c (a_cs a)) as [o|] eqn:Ho; [|discriminate Hcm].
+        destruct (Hle _ _ Ho) as (o' & Ho' & Hd). rewrite Ho', Hd. exact Hcm.
     - rewrite status_file_nonfile in Hcm by discriminate. rewrite status_file_nonfile by discriminate.
       apply qmatch_true in Hcm as (Hh & (o & Ho) & He). apply qmatch_true.
       destruct (Hle _ _ Ho) as (o' & Ho' & _). split; [exact Hh|]. split; [exists o'; exact Ho'|exact He].
@@ -1050,7 +1121,7 @@ Section Status.
       destruct (Hle _ _ Ho) as (o' & Ho' & Hd). exists o', m. rewrite Hd. repeat split; try assumption.
       eapply Forall_impl; [|exact Hkids]. intros kv (n & Hn & Hu). exists n. split; [exact Hn|].
       exact (IH _ _ Hu).
-    - destruct Hu as [Hskip Hcm]. split; [exact Hskip|]. eapply status_file_le; eassumption.
+    - eapply status_file_le; eassumption.
   Qed.
 
   (* ---- commit, unfolded ---- *)
@@ -1101,21 +1172,6 @@ Section Status.
     commit_node H a (File b) c st = commit_file H a (File b) c st.
   Proof. intros Hd. cbn [commit_node]. rewrite Hd. reflexivity. Qed.
 
-  (* files whose bytes happen to decode as a manifest carry no flagged entries *)
-  Fixpoint benign (n : node) : Prop :=
-    match n with
-    | File b => forall m, dec_manifest b = Some m -> Forall (fun kv => plain_child (snd kv)) (m_contents m)
-    | Dir es => (fix all (l : list (bytes * node)) : Prop :=
-                   match l with [] => True | (_, ch) :: r => benign ch /\ all r end) es
-    | _ => True
-    end.
-
-  Lemma benign_dir es : benign (Dir es) -> forall e, In e es -> benign (snd e).
-  Proof.
-    cbn [benign]. induction es as [|[k n] es IH]; intros Hall e Hin; [destruct Hin|].
-    destruct Hall as [Hn Hall]. destruct Hin as [<-|Hin]; [exact Hn|exact (IH Hall e Hin)].
-  Qed.
-
   Lemma cache_le_refl c : cache_le c c.
   Proof. intros d o Ho. exists o. split; [exact Ho|reflexivity]. Qed.
 
@@ -1144,80 +1200,86 @@ Section Status.
     apply andb_true_iff in Hf as [Hp Hv]. apply beqb_eq in Hp. split; assumption.
   Qed.
 
+  (* the entries of whatever old manifest commit starts from are filed under their own path;
+     nothing is assumed about their flags (the old "manifest" may be a user file that happens
+     to decode as one) *)
   Definition old_ok (old : list (bytes * artifact)) : Prop :=
-    Forall (fun kv => a_path (snd kv) = fst kv /\ plain_child (snd kv)) old.
+    Forall (fun kv => a_path (snd kv) = fst kv) old.
 
-  Lemma old_contents_ok a c old : man_plain c -> old_contents a c = Ok old -> old_ok old.
+  Lemma old_contents_ok a c old : old_contents a c = Ok old -> old_ok old.
   Proof.
-    intros Hmp. unfold old_contents. destruct (has_cs (a_cs a)).
+    unfold old_contents. destruct (has_cs (a_cs a)).
     2:{ intros Ho. injection Ho as <-. constructor. }
     destruct (cget c (a_cs a)) as [o|] eqn:Ho.
     2:{ intros Ho'. injection Ho' as <-. constructor. }
     destruct (dec_manifest (o_data o)) as [m|] eqn:Hm; [|discriminate]. intros Ho'. injection Ho' as <-.
-    pose proof (Hmp _ _ _ Ho Hm) as Hpl. pose proof (dec_manifest_keys _ _ Hm) as Hk.
-    unfold old_ok. rewrite Forall_forall in *. intros kv Hin. split; [apply Hk; exact Hin|apply Hpl; exact Hin].
+    pose proof (dec_manifest_keys _ _ Hm) as Hk.
+    unfold old_ok. eapply Forall_impl; [|exact Hk]. intros kv [Hp _]. exact Hp.
   Qed.
 
   Lemma child_of_props old name ch :
-    old_ok old ->
-    a_path (child_of old name ch) = name /\ plain_child (child_of old name ch) /\
-    kind_ok (child_of old name ch) ch.
+    old_ok old -> a_path (child_of old name ch) = name /\ kind_ok (child_of old name ch) ch.
   Proof.
     intros Hold. unfold child_of, kind_ok. destruct (alookup name old) as [oa|] eqn:Hl.
     - destruct (Bool.eqb (a_isdir oa) (is_dir ch)) eqn:Ee.
       + apply alookup_In in Hl. unfold old_ok in Hold. rewrite Forall_forall in Hold.
-        destruct (Hold _ Hl) as [Hp Hpl]. cbn [fst snd] in Hp, Hpl.
-        split; [exact Hp|]. split; [exact Hpl|]. apply eqb_prop. exact Ee.
-      + repeat split.
-    - repeat split.
+        pose proof (Hold _ Hl) as Hp. cbn [fst snd] in Hp.
+        split; [exact Hp|]. apply eqb_prop. exact Ee.
+      + split; reflexivity.
+    - split; reflexivity.
   Qed.
 
   (* ---- the invariant carried through commit ---- *)
   Definition commit_post (a : artifact) (n : node) (c : cache) (n' : node) (c' : cache) (a' : artifact) : Prop :=
-    cache_ok H c' /\ man_plain c' /\ cache_le c c' /\
-    a_path a' = a_path a /\ a_isdir a' = a_isdir a /\ a_norec a' = a_norec a /\ a_skip a' = a_skip a /\
+    cache_ok H c' /\ cache_le c c' /\
+    a_path a' = a_path a /\ a_isdir a' = a_isdir a /\ a_norec a' = a_norec a /\
     wf_text (a_cs a') /\ is_dir n' = is_dir n /\ exists f, utd f c' a' n'.
 
+  (* for every flag combination of [a] *)
   Definition PC (n : node) : Prop :=
     forall a c st n' c' a',
-      plain n -> benign n -> cache_ok H c -> man_plain c -> kind_ok a n -> wf_text (a_path a) ->
-      a_skip a = false -> commit_node H a n c st = Ok (n', c', a') -> commit_post a n c n' c' a'.
+      plain n -> cache_ok H c -> kind_ok a n -> wf_text (a_path a) ->
+      commit_node H a n c st = Ok (n', c', a') -> commit_post a n c n' c' a'.
 
   Section CommitFacts.
     Hypothesis Hinj : H_inj H.
     Hypothesis Hhas : H_has H.
     Hypothesis Htext : H_text H.
-    Hypothesis Hcodec : codec_ok.
 
     Lemma PC_file b : PC (File b).
     Proof.
-      intros a c st n' c' a' _ Hben Hc Hmp Hk Hwp Hskip Hcommit.
+      intros a c st n' c' a' _ Hc Hk Hwp Hcommit.
       unfold kind_ok in Hk. cbn [is_dir] in Hk. rewrite (commit_node_file a b c st Hk) in Hcommit.
       unfold commit_file in Hcommit.
       assert (Hq : qmatch c (a_cs a) (Some (File b)) = false).
       { destruct (qmatch c (a_cs a) (Some (File b))) eqn:Hq; [|reflexivity].
         apply qmatch_true in Hq as (_ & _ & He). discriminate. }
-      rewrite Hq, Hskip in Hcommit.
-      assert (Hpost : forall n1, (n1 = File b \/ n1 = LinkC (H b)) ->
-                commit_post a (File b) c n1 (cput c (H b) b) (set_cs a (H b))).
-      { intros n1 Hn1. unfold commit_post. cbn [set_cs a_path a_isdir a_norec a_skip a_cs].
-        assert (Hc' : cache_ok H (cput c (H b) b)) by (apply cache_ok_cput; exact Hc).
-        split; [exact Hc'|]. split; [apply man_plain_cput; [exact Hmp|exact Hben]|].
-        split; [apply cput_le; assumption|]. repeat (split; [reflexivity|]).
-        split; [apply Htext|]. split; [destruct Hn1 as [->| ->]; reflexivity|].
-        exists 1%nat. cbn [utd a_isdir a_skip set_cs]. rewrite Hk. split; [exact Hskip|].
-        eapply file_complete with (o := mkObj b cache_perms); [exact Hc'|exact Hskip|apply Hhas| |].
-        - cbn [a_cs]. rewrite cget_cput, beqb_refl. reflexivity.
-        - destruct Hn1 as [->| ->]; [reflexivity|]. cbn [logical]. rewrite cget_cput, beqb_refl. reflexivity. }
-      destruct st; injection Hcommit as <- <- <-; apply Hpost; [right|left]; reflexivity.
+      rewrite Hq in Hcommit. destruct (a_skip a) eqn:Hskip.
+      - (* skip-cache: nothing is stored *)
+        injection Hcommit as <- <- <-. unfold commit_post. cbn [set_cs a_path a_isdir a_norec a_cs].
+        split; [exact Hc|]. split; [apply cache_le_refl|]. repeat (split; [reflexivity|]).
+        split; [apply Htext|]. split; [reflexivity|].
+        exists 1%nat. cbn [utd a_isdir set_cs]. rewrite Hk.
+        rewrite status_file_skip_file by exact Hskip. cbn [a_cs set_cs]. rewrite Hhas, beqb_refl. reflexivity.
+      - assert (Hpost : forall n1, (n1 = File b \/ n1 = LinkC (H b)) ->
+                  commit_post a (File b) c n1 (cput c (H b) b) (set_cs a (H b))).
+        { intros n1 Hn1. unfold commit_post. cbn [set_cs a_path a_isdir a_norec a_cs].
+          assert (Hc' : cache_ok H (cput c (H b) b)) by (apply cache_ok_cput; exact Hc).
+          split; [exact Hc'|]. split; [apply cput_le; assumption|]. repeat (split; [reflexivity|]).
+          split; [apply Htext|]. split; [destruct Hn1 as [->| ->]; reflexivity|].
+          exists 1%nat. cbn [utd a_isdir set_cs]. rewrite Hk.
+          eapply file_complete with (o := mkObj b cache_perms); [exact Hc'|exact Hskip|apply Hhas| |].
+          - cbn [a_cs]. rewrite cget_cput, beqb_refl. reflexivity.
+          - destruct Hn1 as [->| ->]; [reflexivity|]. cbn [logical]. rewrite cget_cput, beqb_refl. reflexivity. }
+        destruct st; injection Hcommit as <- <- <-; apply Hpost; [right|left]; reflexivity.
     Qed.
 
     (* what the loop over the entries establishes *)
     Definition go_post (a : artifact) (es : list (bytes * node)) (c : cache)
                (es' : list (bytes * node)) (c' : cache) (m : list (bytes * artifact)) : Prop :=
-      cache_ok H c' /\ man_plain c' /\ cache_le c c' /\
+      cache_ok H c' /\ cache_le c c' /\
       map fst es' = map fst es /\
-      Forall2 (fun e' kv => fst kv = fst e' /\ a_path (snd kv) = fst e' /\ plain_child (snd kv) /\
+      Forall2 (fun e' kv => fst kv = fst e' /\ a_path (snd kv) = fst e' /\
                             wf_text (a_cs (snd kv)) /\ exists f, utd f c' (snd kv) (snd e'))
               (listed a es') m.
 
@@ -1225,40 +1287,39 @@ Section Status.
       old_ok old ->
       Forall (fun e => PC (snd e)) es ->
       forall c es' c' m,
-        (forall e, In e es -> good_name (fst e) /\ plain (snd e) /\ benign (snd e)) ->
-        cache_ok H c -> man_plain c ->
+        (forall e, In e es -> good_name (fst e) /\ plain (snd e)) ->
+        cache_ok H c ->
         commit_go a old st es c = Ok (es', c', m) -> go_post a es c es' c' m.
     Proof.
-      intros Hold HIH. induction HIH as [|[name ch] es IHe _ IHr]; intros c es' c' m Hes Hc Hmp Hgo.
+      intros Hold HIH. induction HIH as [|[name ch] es IHe _ IHr]; intros c es' c' m Hes Hc Hgo.
       - cbn [commit_go] in Hgo. injection Hgo as <- <- <-. unfold go_post.
-        split; [exact Hc|]. split; [exact Hmp|]. split; [apply cache_le_refl|]. split; [reflexivity|].
+        split; [exact Hc|]. split; [apply cache_le_refl|]. split; [reflexivity|].
         constructor.
       - cbn [commit_go] in Hgo. fold (commit_go a old st) in Hgo. cbn [snd] in IHe.
-        assert (Hes_r : forall e, In e es -> good_name (fst e) /\ plain (snd e) /\ benign (snd e)).
+        assert (Hes_r : forall e, In e es -> good_name (fst e) /\ plain (snd e)).
         { intros e He. apply Hes. right; exact He. }
         destruct (a_norec a && is_dir ch) eqn:Hsk.
         + (* sub-directory of a non-recursive artifact: left alone *)
           destruct (commit_go a old st es c) as [[[es1 c1] m1]|] eqn:Hgo1; [|discriminate].
           injection Hgo as <- <- <-.
-          destruct (IHr c es1 c1 m1 Hes_r Hc Hmp Hgo1) as (Hc1 & Hmp1 & Hle1 & Hk1 & HF1).
+          destruct (IHr c es1 c1 m1 Hes_r Hc Hgo1) as (Hc1 & Hle1 & Hk1 & HF1).
           unfold go_post. repeat (split; [assumption|]). split; [cbn [map fst]; now rewrite Hk1|].
           unfold listed. cbn [filter snd]. rewrite Hsk. cbn [negb]. exact HF1.
         + destruct (negb (utf8_name name)); [discriminate|].
           destruct (commit_node H (child_of old name ch) ch c st) as [[[ch' c1] child']|] eqn:Hch; [|discriminate].
           destruct (commit_go a old st es c1) as [[[es2 c2] m2]|] eqn:Hgo2; [|discriminate].
           injection Hgo as <- <- <-.
-          destruct (Hes (name, ch) (or_introl eq_refl)) as ((Hu & Hv & Hb) & Hpl & Hben). cbn [fst snd] in *.
-          destruct (child_of_props old name ch Hold) as (Hcp & [Hcnr Hcsk] & Hck).
+          destruct (Hes (name, ch) (or_introl eq_refl)) as ((Hu & Hv & Hb) & Hpl). cbn [fst snd] in *.
+          destruct (child_of_props old name ch Hold) as (Hcp & Hck).
           assert (Hwn : wf_text (a_path (child_of old name ch))) by (rewrite Hcp; split; assumption).
-          destruct (IHe _ c st ch' c1 child' Hpl Hben Hc Hmp Hck Hwn Hcsk Hch)
-            as (Hc1 & Hmp1 & Hle1 & Hp' & Hd' & Hnr' & Hsk' & Hwcs & Hisd & (f1 & Hu1)).
-          destruct (IHr c1 es2 c2 m2 Hes_r Hc1 Hmp1 Hgo2) as (Hc2 & Hmp2 & Hle2 & Hk2 & HF2).
-          unfold go_post. split; [exact Hc2|]. split; [exact Hmp2|].
+          destruct (IHe _ c st ch' c1 child' Hpl Hc Hck Hwn Hch)
+            as (Hc1 & Hle1 & Hp' & Hd' & Hnr' & Hwcs & Hisd & (f1 & Hu1)).
+          destruct (IHr c1 es2 c2 m2 Hes_r Hc1 Hgo2) as (Hc2 & Hle2 & Hk2 & HF2).
+          unfold go_post. split; [exact Hc2|].
           split; [eapply cache_le_trans; eassumption|]. split; [cbn [map fst]; now rewrite Hk2|].
           unfold listed. cbn [filter snd]. rewrite Hisd, Hsk. cbn [negb]. constructor; [|exact HF2].
           cbn [fst snd]. rewrite Hp', Hcp. split; [reflexivity|]. split; [reflexivity|].
-          split; [split; congruence|]. split; [exact Hwcs|].
-          exists f1. eapply utd_le; eassumption.
+          split; [exact Hwcs|]. exists f1. eapply utd_le; eassumption.
     Qed.
 
     Lemma Forall2_common_fuel c (L : list (bytes * node)) (m : list (bytes * artifact)) (Q : bytes * node -> bytes * artifact -> Prop) :
@@ -1275,45 +1336,38 @@ Section Status.
 
     Lemma PC_dir es : Forall (fun e => PC (snd e)) es -> PC (Dir es).
     Proof.
-      intros HIH a c st n' c' a' Hpl Hben Hc Hmp Hk Hwp Hskip Hcommit.
+      intros HIH a c st n' c' a' Hpl Hc Hk Hwp Hcommit.
       unfold kind_ok in Hk. cbn [is_dir] in Hk. rewrite (commit_node_dir a es c st Hk) in Hcommit.
       destruct (old_contents a c) as [old|] eqn:Hold; [|discriminate].
       destruct (commit_go a old st es c) as [[[es' c1] m]|] eqn:Hgo; [|discriminate].
       cbv zeta in Hcommit. injection Hcommit as <- <- <-.
       apply plain_dir_inv in Hpl as [Hs Hall].
-      assert (Hes : forall e, In e es -> good_name (fst e) /\ plain (snd e) /\ benign (snd e)).
-      { intros e He. destruct (Hall e He) as [Hg Hp]. split; [exact Hg|]. split; [exact Hp|].
-        exact (benign_dir es Hben e He). }
-      destruct (PC_go a old st es (old_contents_ok a c old Hmp Hold) HIH c es' c1 m Hes Hc Hmp Hgo)
-        as (Hc1 & Hmp1 & Hle1 & Hkeys & HF).
+      destruct (PC_go a old st es (old_contents_ok a c old Hold) HIH c es' c1 m Hall Hc Hgo)
+        as (Hc1 & Hle1 & Hkeys & HF).
       set (mb := enc_manifest (mkMan (a_path a) m)).
       assert (Hses' : ksorted es').
       { apply ksorted_keys. rewrite Hkeys. apply ksorted_keys. exact Hs. }
       assert (Hnames : forall e', In e' es' -> good_name (fst e')).
       { intros e' He'. assert (Hin : In (fst e') (map fst es)) by (rewrite <- Hkeys; apply in_map; exact He').
         apply in_map_iff in Hin as (e & He & Hin). rewrite <- He. apply Hall. exact Hin. }
-      assert (Hwf : wf_manifest (mkMan (a_path a) m)).
-      { unfold wf_manifest. cbn [m_path m_contents]. split; [exact Hwp|]. split.
-        - change (ksorted m). apply ksorted_keys.
+      assert (Hwf : wf_manifest_flags (mkMan (a_path a) m)).
+      { unfold wf_manifest_flags. cbn [m_path m_contents]. split; [exact Hwp|]. split.
+        - apply ksorted_keys.
           rewrite (Forall2_keys _ _ _ HF) by (intros x y [Hxy _]; exact Hxy).
           apply ksorted_keys. apply ksorted_filter. exact Hses'.
         - apply Forall_forall. intros kv Hin.
-          destruct (Forall2_In_r _ _ _ _ HF Hin) as (e' & He' & Hk' & Hp' & Hpc & Hwcs & _).
+          destruct (Forall2_In_r _ _ _ _ HF Hin) as (e' & He' & Hk' & Hp' & Hwcs & _).
           apply filter_In in He' as [He' _]. destruct (Hnames _ He') as (Hu & Hv & Hb).
-          rewrite Hk'. split; [exact Hp'|]. split; [exact Hv|]. split; [split; [exact Hu|exact Hb]|].
-          split; [exact Hwcs|exact Hpc]. }
-      pose proof (Hcodec _ Hwf) as Hdec. fold mb in Hdec.
+          rewrite Hk'. split; [exact Hp'|]. split; [exact Hv|]. split; [split; [exact Hu|exact Hb]|exact Hwcs]. }
+      pose proof (codec_flags _ Hwf) as Hdec. fold mb in Hdec.
       assert (Hc2 : cache_ok H (cput c1 (H mb) mb)) by (apply cache_ok_cput; exact Hc1).
       assert (Hle2 : cache_le c1 (cput c1 (H mb) mb)) by (apply cput_le; assumption).
-      unfold commit_post. cbn [set_cs a_path a_isdir a_norec a_skip a_cs is_dir].
-      split; [exact Hc2|]. split.
-      { apply man_plain_cput; [exact Hmp1|]. intros m0 Hm0. rewrite Hdec in Hm0. injection Hm0 as <-.
-        cbn [m_contents]. apply Forall_forall. intros kv Hin.
-        destruct (Forall2_In_r _ _ _ _ HF Hin) as (e' & _ & _ & _ & Hpc & _). exact Hpc. }
+      unfold commit_post. cbn [set_cs a_path a_isdir a_norec a_cs is_dir].
+      split; [exact Hc2|].
       split; [eapply cache_le_trans; eassumption|]. repeat (split; [reflexivity|]).
       split; [apply Htext|]. split; [reflexivity|].
       destruct (Forall2_common_fuel c1 (listed a es') m (fun e' kv => fst kv = fst e')) as (F & HFF).
-      { eapply Forall2_weaken; [|exact HF]. intros x y (Hxy & _ & _ & _ & Hex). split; [exact Hxy|exact Hex]. }
+      { eapply Forall2_weaken; [|exact HF]. intros x y (Hxy & _ & _ & Hex). split; [exact Hxy|exact Hex]. }
       exists (S F). cbn [utd a_isdir set_cs]. rewrite Hk.
       exists (mkObj mb cache_perms), (mkMan (a_path a) m). cbn [a_cs o_data m_contents].
       split; [apply Hhas|]. split; [rewrite cget_cput, beqb_refl; reflexivity|]. split; [exact Hdec|].
@@ -1341,22 +1395,26 @@ Section Status.
     Qed.
   End CommitFacts.
 
-  (* C05, with the premise [benign n] (a file whose bytes decode as a manifest with flagged
-     entries would break [man_plain] for the caches in the middle of the commit, and [codec_ok]
-     only speaks about flag-free entries); [man_closed] of [cache_inv] is not needed *)
-  Definition stmt_status_after_commit_benign : Prop :=
-    H_inj H -> H_has H -> H_text H -> codec_ok -> forall a n c st n' c' a',
-      plain n -> benign n -> kind_ok a n -> top_art a -> cache_inv H c ->
-      commit_node H a n c st = Ok (n', c', a') ->
-      exists fuel s, status_node H fuel a' (Some n') c' = Ok s /\ all_cm s.
-
-  Theorem status_after_commit_benign : stmt_status_after_commit_benign.
+  (* C05: right after a successful commit the artifact is reported up to date at every level.
+     Of [cache_inv] only [cache_ok] is used, of [top_art] only the path, and the premise
+     [codec_ok] is not used at all: the round trip of Proofs/ManifestRT covers entries with
+     flags, which do occur when a committed user file happens to decode as a manifest and a
+     stale checksum points at it. *)
+  Theorem status_after_commit : stmt_status_after_commit H.
   Proof.
-    intros Hinj Hhas Htext Hcodec a n c st n' c' a' Hpl Hben Hk [Hwp Hskip] (Hc & Hmp & _) Hcommit.
-    destruct (PC_all Hinj Hhas Htext Hcodec n a c st n' c' a' Hpl Hben Hc Hmp Hk Hwp Hskip Hcommit)
-      as (_ & _ & _ & _ & _ & _ & _ & _ & _ & (f & Hu)).
+    intros Hinj Hhas Htext _ a n c st n' c' a' Hpl Hk [Hwp _] (Hc & _ & _) Hcommit.
+    destruct (PC_all Hinj Hhas Htext n a c st n' c' a' Hpl Hc Hk Hwp Hcommit)
+      as (_ & _ & _ & _ & _ & _ & _ & (f & Hu)).
     exists f. apply utd_status. exact Hu.
   Qed.
+
+  (* C16 without the codec premise *)
+  Theorem merkle_inj_nocodec :
+    H_inj H -> H_text H -> forall p nr n1 n2 d,
+      plain n1 -> plain n2 -> is_dir n1 = is_dir n2 -> wf_text p ->
+      merkle H p nr n1 = Some d -> merkle H p nr n2 = Some d ->
+      tracked_view (mkArt [] p true nr false) n1 = tracked_view (mkArt [] p true nr false) n2.
+  Proof. intros Hinj Ht. exact (merkle_inj Hinj Ht codec_ok_holds). Qed.
 End Status.
 
 
@@ -1484,6 +1542,8 @@ Print Assumptions status_iff_strong.
 Print Assumptions status_iff_fixed.
 Print Assumptions status_iff_recursive.
 Print Assumptions merkle_inj.
-Print Assumptions status_after_commit_benign.
+Print Assumptions codec_ok_holds.
+Print Assumptions status_after_commit.
+Print Assumptions merkle_inj_nocodec.
 Print Assumptions Cex.status_iff_needs_H_has.
 Print Assumptions Cex.status_iff_needs_norec_flat.
